@@ -260,7 +260,10 @@ def run(ctx):
     for cid, rng in ctx.cases([('chain', i) for i in range(nchain)]):
         mon.cid = cid
         N, D = int(rng.integers(1, 6)), int(rng.integers(1, 5))
-        spec = zoo.int_spec(rng, n=N, d=D, limits=False)
+        wide = cid[1] % 10 == 3
+        if wide:
+            D = int(rng.choice([17, 24, 40]))          # many channels (name tables, caches and fast paths engage only here)
+        spec = zoo.int_spec(rng, n=N, d=D, limits=False, names=['P%02d-%s' % (j, 'AHW'[j % 3]) for j in range(D)] if wide else None)
         spec['pnv'] = [str(300 + j) for j in range(D)]
         spec['pns'] = ['L%d' % j for j in range(D)]
         spec['png'] = [str(1.5 + j) for j in range(D)]
